@@ -135,7 +135,7 @@ MACRO_SPEC: list = []  # the case the next FlowMacro* construction builds
 BUILT: dict = {}
 
 
-def build_flow(owner, case, ui=None):
+def build_flow(owner, case, ui=None, offset=0, wire=True):
     """children n0.. of `owner`, their data connections, their signal connections (every sugar form) and the
     starting nodes, exactly in the order the case lists them; `ui` is the macro's UI node (child number
     len(nodes)) when the host is a macro with an input"""
@@ -144,11 +144,11 @@ def build_flow(owner, case, ui=None):
         kw = {}
         for lab, tok in zip(SLOTS[nd["kind"]], nd["own"]):
             kw[lab] = _tok(tok)
-        n = KINDS[nd["kind"]](label=f"n{i}", tag=i, **kw)
+        n = KINDS[nd["kind"]](label=f"n{offset + i}", tag=offset + i, **kw)
         n.use_cache = bool(nd["cache"])
         n.recovery = None
         if nd.get("fail"):
-            FAIL[i] = set(nd["fail"])
+            FAIL[offset + i] = set(nd["fail"])
         owner.add_child(n)
         ns.append(n)
     for dst, slot, src in case["data"]:
@@ -156,6 +156,15 @@ def build_flow(owner, case, ui=None):
         out = ui.outputs.user_input if src == len(ns) else ns[src].outputs[OUT[case["nodes"][src]["kind"]]]
         ns[dst].inputs[lab].connect(out)
     for src, c, dst, acc, via in case["sig"]:
+        connect_signal(ns[src], c, ns[dst], acc, via)
+    owner.starting_nodes = [ns[i] for i in case["starters"]]
+    return ns
+
+
+def connect_signal(src_node, c, dst_node, acc, via):
+    if True:
+        ns = {0: src_node, 1: dst_node}
+        src, dst = 0, 1
         sig = ns[src].signals.output[CH[c]]
         recv = ns[dst].signals.input.accumulate_and_run if acc else ns[dst].signals.input.run
         if via == "connect":
@@ -176,8 +185,6 @@ def build_flow(owner, case, ui=None):
                 ns[dst] << sig
         else:
             raise ValueError(via)
-    owner.starting_nodes = [ns[i] for i in case["starters"]]
-    return ns
 
 
 def _tok(tok):
@@ -199,7 +206,7 @@ def _tok(tok):
 @as_macro_node("o", validate_output_labels=False)
 def FlowMacro0(self):
     case = MACRO_SPEC.pop(0)
-    ns = build_flow(self, case)
+    ns = build_flow(self, case, offset=case.get("offset", 0))
     BUILT["ns"] = ns
     return ns[0]
 
@@ -208,5 +215,23 @@ def FlowMacro0(self):
 def FlowMacro1(self, x="d"):
     case = MACRO_SPEC.pop(0)
     ns = build_flow(self, case, ui=x)
+    BUILT["ns"] = ns
+    return ns[0]
+
+
+@as_macro_node("o", validate_output_labels=False)
+def FlowMacroG(self):
+    """children with arbitrary global numbers (`offsets`), built one by one, then wired"""
+    case = MACRO_SPEC.pop(0)
+    ns = []
+    for k, g in enumerate(case["offsets"]):
+        one = {"nodes": [case["nodes"][k]], "data": [], "sig": [], "starters": []}
+        ns.append(build_flow(self, one, offset=g)[0])
+    for dst, slot, src in case["data"]:
+        lab = SLOTS[case["nodes"][dst]["kind"]][slot]
+        ns[dst].inputs[lab].connect(ns[src].outputs[OUT[case["nodes"][src]["kind"]]])
+    for src, c, dst, acc, via in case["sig"]:
+        connect_signal(ns[src], c, ns[dst], acc, via)
+    self.starting_nodes = [ns[i] for i in case["starters"]]
     BUILT["ns"] = ns
     return ns[0]
